@@ -483,6 +483,18 @@ func (e fixEvaluator) ScaleP(levelP int, p rlwe.Parameters, op0 *rlwe.Ciphertext
 }
 
 // RNSSTORE control: residues are not reduced
+// NTTDOM control: for n == 1 the output is a copy of the input in the input's own domain, then leaves the NTT domain again
+func (e fixEvaluator) TraceOne(ctIn *rlwe.Ciphertext, n int, opOut *rlwe.Ciphertext) {
+	if n == 1 {
+		opOut.Value[0].CopyLvl(ctIn.Level(), ctIn.Value[0])
+	} else {
+		e.r.MulScalar(ctIn.Value[0], uint64(n), opOut.Value[0])
+	}
+	if !ctIn.IsNTT {
+		e.r.INTT(opOut.Value[0], opOut.Value[0])
+	}
+}
+
 func rnsBad(r *ring.Ring, v uint64) (rns ring.RNSScalar) {
 	rns = make(ring.RNSScalar, r.Level()+1)
 	for i := range rns {
